@@ -35,26 +35,6 @@ TLoad ==
      /\ IF e.err = "" /\ e.pan = "" THEN LoadOwn ELSE inst' = NoInst
      /\ iters' = NoIters
 
-\* one whole scan call
-ScanBad(c, e) ==
-  IF Refuses(c)
-  THEN (IF e.pan = "" THEN {"notrefused"} ELSE {}) \cup (IF Len(e.yk) > 0 THEN {"yielded-unindexed"} ELSE {})
-  ELSE
-    LET exp == ScanDelivers(c, e.start, e.incl = 1, e.hasend = 1, e.end, e.inclend = 1, e.stop)
-    IN (IF e.pan # "" THEN {"panic"} ELSE {})
-       \cup (IF e.pan = "" /\ Len(e.yk) # Len(exp) THEN {"count"} ELSE {})
-       \cup (IF e.pan = "" /\ Len(e.yk) = Len(exp) /\ \E x \in 1..Len(exp) : e.yk[x] # c.ks[c.R[exp[x]]]
-             THEN {"keys"} ELSE {})
-       \cup (IF e.pan = "" /\ Len(e.yk) = Len(exp) /\ \E x \in 1..Len(exp) : e.yv[x] # ScanVal(c, e.withvalue = 1, exp[x])
-             THEN {"values"} ELSE {})
-       \cup (IF e.extras # 0 THEN {"after-exhaustion"} ELSE {})
-
-\* Layer M: the Model's scan (getGEPath + depth-first walk + key re-assembly)
-ScanDrift(c, e) ==
-  IF Refuses(c) \/ e.pan # "" THEN {}
-  ELSE LET ms == ModelScan(c.ks, c.nodes, c.o, e.start, e.incl = 1)
-       IN IF \E x \in 1..Len(e.yk) : x > Len(ms) \/ ms[x].key # e.yk[x] THEN {"modelscan"} ELSE {}
-
 TScan ==
   /\ Ev("scan") /\ Read /\ UNCHANGED iters
   /\ LET e == Trace[l]
